@@ -2,8 +2,11 @@
 
 case = {'family': 'retr', 'config': {'k_list', 'input_type', 'split'},
         'input': {'y_true', 'y_pred'}}
-case = {'family': 'thr', 'config': {'thresholds', 'split'},
+       k_list: any order, duplicates allowed; rows may be empty (config
+       'empty_rows' marks the cases generated for that input class)
+case = {'family': 'thr', 'config': {'thresholds', 'split', 'prob_dtype', 'mode'},
         'input': {'y_true', 'y_pred', 'y_prob' | None}}
+       prob_dtype: 'list' (python floats) | 'float64' | 'float32' (one array per row)
 """
 
 from __future__ import annotations
@@ -11,22 +14,54 @@ from __future__ import annotations
 from vlib.oracles import c07_common as cm
 from vlib.oracles import c07_retrieval as orc
 
+KLIST_ORDER = 'retrieval-klist-result-order'
+EMPTY_NAN = 'retrieval-empty-row-nan'
+EMPTY_ALONE = 'retrieval-empty-row-alone-raises'
+THR_TIE = 'thresholded-retrieval-float32-threshold-equality'
+
+# Row formulas that divide by the number of predictions / of true labels.
+_PRED_DEN = ('precision', 'ppv', 'positive_predictive_value', 'f1_score',
+             'false_discovery_rate', 'fowlkes_mallows_index')
+_TRUE_DEN = ('recall', 'sensitivity', 'tpr', 'miss_rate', 'f1_score',
+             'fowlkes_mallows_index', 'mean_average_precision', 'ndcg_score')
+
+
+def _displaced(k_list, j):
+  """The library answers in ascending k order: position j holds another k."""
+  return bool(k_list) and j is not None and j < len(k_list) and (
+      k_list[j] != sorted(k_list)[j])
+
 
 def _mechanism(config, metric, rows_t, rows_p, k_index, ks):
   """Input-class key of a value mismatch (never data dependent beyond shape)."""
   if config.get('odd_labels'):
     return 'retrieval-multiclass-labels-iterated'
+  empty = ((metric in _PRED_DEN and any(len(p) == 0 for p in rows_p)) or
+           (metric in _TRUE_DEN and any(len(set(t)) == 0 for t in rows_t)))
+  if k_index is None:
+    # 0 / 0 on the row of a query that retrieved nothing / has no true label
+    return EMPTY_NAN if empty else None
   max_len = max(len(r) for r in rows_p)
-  k = ks[k_index] if ks[k_index] is not None else float('inf')
-  if (metric in ('mean_average_precision', 'ndcg_score') and k > max_len and
-      any(len(set(t)) > max_len for t in rows_t)):
-    # k exceeds every ranking of the batch and some row has more true labels
-    # than that: the library evaluates at k' = longest ranking of the batch.
-    return 'retrieval-k-truncated-to-batch-max-len'
-  if metric == 'threat_score' and any(len(p) < min(k, max_len) for p in rows_p):
-    # a ranking shorter than k: the library counts k - len(y_pred) phantom
-    # false positives.
-    return 'retrieval-threat-score-uses-k'
+  # The recorded per-k defects apply to whichever k the library evaluated at
+  # this position (the requested one, or the one of the sorted request).
+  cands = [ks[k_index]]
+  if ks[0] is not None and _displaced(ks, k_index):
+    cands.append(sorted(ks)[k_index])
+  for k in cands:
+    k = k if k is not None else float('inf')
+    if (metric in ('mean_average_precision', 'ndcg_score') and k > max_len and
+        any(len(set(t)) > max_len for t in rows_t)):
+      # k exceeds every ranking of the batch and some row has more true labels
+      # than that: the library evaluates at k' = longest ranking of the batch.
+      return 'retrieval-k-truncated-to-batch-max-len'
+    if metric == 'threat_score' and any(len(p) < min(k, max_len) for p in rows_p):
+      # a ranking shorter than k: the library counts k - len(y_pred) phantom
+      # false positives.
+      return 'retrieval-threat-score-uses-k'
+  if empty:
+    return EMPTY_NAN
+  if ks[0] is not None and _displaced(ks, k_index):
+    return KLIST_ORDER
   return None
 
 
@@ -40,11 +75,17 @@ def check_topk(ctx, case):
   k_list = list(config['k_list']) if config.get('k_list') else None
   rows_t, rows_p = orc.as_rows(y_true, it), orc.as_rows(y_pred, it)
   exp = orc.oracle(rows_t, rows_p, k_list)
-  ks = sorted(k_list) if k_list else [None]
+  alt = exp['_alt']
+  ks = list(k_list) if k_list else [None]
   mis = cm.Mis()
+  has_empty = any(len(r) == 0 for r in rows_p) or any(len(r) == 0 for r in rows_t)
   nontrivial = len(rows_t) >= 2 and any(len(r) >= 2 for r in rows_p)
   ctx.case(('retr', config, inp), nontrivial)
   ctx.count('retr_cases')
+  if has_empty:
+    ctx.count('retr_empty_row_cases')
+  if k_list and k_list != sorted(set(k_list)):
+    ctx.count('retr_unordered_klist_cases')
   metrics = list(orc.METRICS)
 
   def compare(res, path):
@@ -55,15 +96,19 @@ def check_topk(ctx, case):
       got = list(res[name]) if hasattr(res[name], '__len__') else [res[name]]
       want = exp[name]
       if len(got) != len(want):
-        mis.add('value_mismatch', _mechanism(config, name, rows_t, rows_p, 0, ks),
+        mis.add('value_mismatch', _mechanism(config, name, rows_t, rows_p, None, ks),
                 {'metric': name, 'path': path, 'got': got, 'want': want})
         continue
       for j, (g, w) in enumerate(zip(got, want)):
         ctx.count('retr_value_checks')
-        if not cm.close(g, w):
+        ok = cm.close(g, w)
+        if not ok and has_empty and name in alt:
+          ok = cm.close(g, alt[name][j])  # 1 - rate reading of an empty row
+        if not ok:
           mis.add('value_mismatch',
                   _mechanism(config, name, rows_t, rows_p, j, ks),
-                  {'metric': name, 'k': ks[j], 'path': path, 'got': g, 'want': w})
+                  {'metric': name, 'k': ks[j], 'k_list': k_list, 'path': path,
+                   'got': g, 'want': w})
     for group in orc.ALIASES:
       for other in group[1:]:
         if group[0] in res and other in res:
@@ -83,14 +128,23 @@ def check_topk(ctx, case):
         ctx.count('retr_range_checks')
         a = np.asarray(res[name], dtype=float)
         if not bool(np.all((a >= -1e-12) & (a <= 1 + 1e-12))):
-          mis.add('out_of_range', None, {'metric': name, 'got': res[name]})
+          mis.add('out_of_range', _mechanism(config, name, rows_t, rows_p, None, [None]),
+                  {'metric': name, 'got': res[name]})
 
-  def guarded(path, fn):
+  def all_empty_pred(rows):
+    return len(rows) > 0 and all(len(r) == 0 for r in rows)
+
+  def guarded(path, fn, batches_p=None):
     try:
       with cm.observed_warnings(ctx, 'retr'):
         return True, fn()
     except Exception as e:  # pylint: disable=broad-exception-caught
-      mech = 'retrieval-multiclass-labels-iterated' if config.get('odd_labels') else None
+      mech = None
+      if any(all_empty_pred(b) for b in (batches_p or [rows_p])):
+        # a batch in which no query retrieved anything
+        mech = EMPTY_ALONE
+      if config.get('odd_labels'):
+        mech = 'retrieval-multiclass-labels-iterated'
       mis.add('raised', mech, {'path': path, 'error': repr(e)[:300]})
       return False, None
 
@@ -111,14 +165,19 @@ def check_topk(ctx, case):
     ctx.count('retr_accumulator_checks')
     compare(res_acc, 'accumulator')
   split = config.get('split')
-  if split and 0 < split < len(y_true) and k_list:
-    # Only when both batches contain a ranking of at least max(k) items: the
-    # per-batch k_list truncation (recorded under C01) is then inactive.
-    kmax = max(k_list)
-    if (max(len(r) for r in rows_p[:split]) >= kmax and
-        max(len(r) for r in rows_p[split:]) >= kmax):
+  if split and 0 < split < len(y_true) and (k_list or has_empty):
+    # Only when every batch contains a ranking of at least max(k) items: the
+    # per-batch k_list truncation (recorded under C01) is then inactive. A
+    # batch in which every ranking is empty is admitted as well (no k applies).
+    kmax = max(k_list) if k_list else 0
+    parts = [rows_p[:split], rows_p[split:]]
+    if all(all_empty_pred(b) or max(len(r) for r in b) >= kmax for b in parts) and (
+        k_list or any(all_empty_pred(b) for b in parts)):
       ok3, res_multi = guarded('accumulator_2_batches', lambda: accumulate(
-          [(y_true[:split], y_pred[:split]), (y_true[split:], y_pred[split:])]))
+          [(y_true[:split], y_pred[:split]), (y_true[split:], y_pred[split:])]),
+                               parts)
+      if any(all_empty_pred(b) for b in parts):
+        ctx.count('retr_empty_batch_checks')
       if ok3:
         ctx.count('retr_multibatch_checks')
         compare(res_multi, 'accumulator_2_batches')
@@ -146,45 +205,94 @@ def check_topk(ctx, case):
                 'recall': cm.jsonable(exp['recall'])})
 
 
+def _mixed_precision_tie(y_prob, thresholds, prob_dtype):
+  """Input class of THR_TIE: a probability handed over in double precision
+  (python float / float64 array) that rounds to the same float32 as a
+  threshold while being larger than that float32. Compared as a double against
+  the float32 threshold it is 'above', compared after its own rounding to
+  float32 it is 'not above'."""
+  if y_prob is None or prob_dtype == 'float32':
+    return False
+  t32 = [orc.to_float32(t) for t in thresholds]
+  for row in y_prob:
+    for p in row:
+      p32 = orc.to_float32(p)
+      if any(p32 == t and p > t for t in t32):
+        return True
+  return False
+
+
 def check_thresholded(ctx, case):
+  import numpy as np
   from ml_metrics._src.aggregates import retrieval as agg
 
   config, inp = case['config'], case['input']
   y_true, y_pred, y_prob = inp['y_true'], inp['y_pred'], inp.get('y_prob')
   thresholds = list(config['thresholds'])
-  exp = orc.thresholded_oracle(y_true, y_pred, y_prob, thresholds)
+  prob_dtype = config.get('prob_dtype', 'list')
   ths = sorted(thresholds)
+  if prob_dtype == 'float32' and y_prob is not None:
+    # the values the library is handed are the float32 roundings
+    given = [[orc.to_float32(p) for p in row] for row in y_prob]
+  else:
+    given = y_prob
+  # Two admissible readings of "probability > threshold": exact comparison of
+  # the given numbers, or comparison in single precision (the thresholds are
+  # documented to be kept as float32). Either way one comparison per item.
+  exp = orc.thresholded_oracle(y_true, y_pred, given, thresholds)
+  exp32 = orc.thresholded_oracle(y_true, y_pred, given, thresholds,
+                                 quantize=orc.to_float32)
+  exact32 = all(orc.to_float32(t) == t for t in ths)
+  tie = _mixed_precision_tie(y_prob, ths, prob_dtype)
   mis = cm.Mis()
   ctx.case(('thr', config, inp), len(y_true) >= 2)
   ctx.count('thr_cases')
+  if tie:
+    ctx.count('thr_tie_cases')
   names = ['precision', 'recall', 'f1_score']
   at = [f'{n}@{t}' for n in names for t in ths]
+
+  def wrap(rows):
+    if rows is None or prob_dtype == 'list':
+      return rows
+    dt = np.float32 if prob_dtype == 'float32' else np.float64
+    return [np.asarray(r, dtype=dt) for r in rows]
 
   def run(batches):
     m = agg.ThresholdedRetrieval(thresholds=thresholds, metrics=names + at)
     for yt, yp, ypr in batches:
-      m.add(yt, yp, ypr)
+      m.add(yt, yp, wrap(ypr))
     return {str(k): v for k, v in m.result().items()}
 
+  def value_ok(g, n, j, atol=cm.ATOL):
+    return (cm.close(g, exp[n][j], atol=atol) or
+            cm.close(g, exp32[n][j], atol=atol))
+
+  mech = THR_TIE if tie else None
+
   def compare(res, path):
-    import numpy as np
-    if not cm.seq_close(res['thresholds'], ths):
+    # thresholds are reported in float32
+    if not cm.seq_close(res['thresholds'], ths, rtol=cm.RTOL if exact32 else 1e-7):
       mis.add('value_mismatch', None, {'thresholds': res['thresholds']})
     for n in names:
       got = list(np.asarray(res[n], dtype=float).ravel())
-      for j, (g, w) in enumerate(zip(got, exp[n])):
+      for j, g in enumerate(got[:len(ths)]):
         ctx.count('thr_value_checks')
-        if not cm.close(g, w):
-          mis.add('value_mismatch', None, {'metric': n, 'threshold': ths[j],
-                                           'path': path, 'got': g, 'want': w})
+        if not value_ok(g, n, j):
+          mis.add('value_mismatch', mech,
+                  {'metric': n, 'threshold': ths[j], 'path': path, 'got': g,
+                   'want': exp[n][j], 'want_float32_semantics': exp32[n][j]})
         if not -1e-12 <= g <= 1 + 1e-12:
-          mis.add('out_of_range', None, {'metric': n, 'got': g})
+          mis.add('out_of_range', mech, {'metric': n, 'got': g})
       if len(got) != len(ths):
         mis.add('value_mismatch', None, {'metric': n, 'got': got})
       for j, t in enumerate(ths):
         ctx.count('thr_value_checks')
-        if not cm.close(res[f'{n}@{t}'], exp[n][j]):
-          mis.add('value_mismatch', None,
+        # metric@t is interpolated on the float32 threshold axis: exact at a
+        # threshold that is a float32, else within the float32 resolution of t
+        # relative to the gap to the neighbouring threshold.
+        if not value_ok(res[f'{n}@{t}'], n, j, atol=cm.ATOL if exact32 else 2e-6):
+          mis.add('value_mismatch', mech,
                   {'metric': f'{n}@{t}', 'path': path,
                    'got': res[f'{n}@{t}'], 'want': exp[n][j]})
 
